@@ -273,6 +273,18 @@ def install(it):
                         return a[1]
                     raise
             return gen.runner_of(it, v).next()
+        if isinstance(v, ops.LazyGen):
+            # next(<generator expression>[, default]): demand driven
+            st = getattr(v, '_next_state', None)
+            if st is None:
+                st = v.lazy_items()
+                v._next_state = st
+            try:
+                return next(st)
+            except StopIteration:
+                if len(a) > 1:
+                    return a[1]
+                it.throw(StopIteration)
         raise Unsupported('next() on %r' % (v,))
 
     @builtin('repr')
@@ -690,6 +702,19 @@ def getattr_value(it, o, name):
         if o.host is int and name == 'from_bytes':
             return I.Builtin('int.from_bytes', int_from_bytes)
         if hasattr(o.host, name):
+            import inspect as _inspect
+            raw = _inspect.getattr_static(o.host, name)
+            if isinstance(raw, (staticmethod, classmethod)) or type(
+                    raw).__name__ in ('builtin_function_or_method',
+                                      'classmethod_descriptor'):
+                # str.maketrans, bytes.fromhex, dict.fromkeys, ...: called on
+                # the type, no instance in front of the arguments
+                def call_on_type(it_, a, kw, _n=name, _h=o.host):
+                    if _has_sym(a) or _has_sym(list(kw.values())):
+                        raise Unsupported('%s.%s on symbolic arguments'
+                                          % (_h.__name__, _n))
+                    return it_.host_call(getattr(_h, _n), *a, **kw)
+                return I.Builtin('%s.%s' % (o.name, name), call_on_type)
             return I.Builtin('%s.%s' % (o.name, name),
                              lambda it_, a, kw, _n=name:
                              call_host_method(it_, I.HostMethod(a[0], _n),
